@@ -8,6 +8,7 @@ from vlib import pgen, ref
 from vlib.harness import SubCheck, must, require
 
 PROPERTY_ID = "C03"
+TECHNIQUE = 'exhaustive enumeration (all 64x64 three-qubit string pairs) + property-based testing of expression trees against an independent canonical-form Pauli algebra'
 RULE = (
     "(i) exhaustive: all 64x64 ordered products of Pauli strings on 3 qubits against np.kron "
     "matrices; (ii) Hypothesis-drawn operand pairs (term/sum/number mixed on either side) under "
